@@ -63,8 +63,12 @@ def check(repo, rep, tier):
                               sinks=sorted(set(a for (a, t, p, s)
                                                in dom.sinks))))
     if cname in SWAP:
-      badp = [(a, s) for (a, t, p, s) in dom.sinks if p != 'E']
-      if badp:
+      badp = [(a, s) for (a, t, p, s) in dom.sinks if p == 'O']
+      unkp = [(a, s) for (a, t, p, s) in dom.sinks if p == 'X']
+      if not badp and unkp:
+        rep.unknown(Rs, '%s:%s' % (key, unkp[0][0]), unkp[0][1], 'swap parity '
+                    'of self.%s not derivable' % unkp[0][0])
+      elif badp:
         rep.refuted(Rs, '%s:%s' % (key, badp[0][0]), badp[0][1], 'self.%s is '
                     'not invariant under swapping the two points of a '
                     'training pair (an odd or slot-specific quantity reaches '
